@@ -18,7 +18,7 @@ for p in props:
     except ModuleNotFoundError:
         na.append({"property_id": pid, "reason": "check not built yet in this commit (model and harness under construction)"})
         continue
-    if not getattr(m, "THEOREMS", []) and m.LEVEL == "proof":
+    if not getattr(m, "THEOREMS", []):
         na.append({"property_id": pid, "reason": "correspondence and oracle exist but the Lean theorems for this property are not merged yet; not claimed until they are"})
         continue
     checks.append({
